@@ -76,10 +76,16 @@ structure AttrRec where
   dca : Option (List (String × Kw))
   /-- own `_delayed_child_attrs_all` -/
   dcaa : Option Kw
+  /-- own `sqla_column_args`: the keyword dict of the `(args, kwargs)` pair when this record holds a dict object
+      of its own (`pk`, `autoincrement`, `onupdate`, `server_default` are written *into* that dict) -/
+  colArgs : Option Kw := none
+  /-- own `sqla_column_args` that is the *same dict object* as the one held by record `colRef`
+      (what a shallow `copy()` of the pair produces) -/
+  colRef : Option Nat := none
   deriving DecidableEq, Repr
 
 /-- the part of an `Attributes` record that public lookups read -/
-def AttrRec.pub (r : AttrRec) : Kw × Option Nat := (r.own, r.parent)
+def AttrRec.pub (r : AttrRec) : Kw × Option Nat × Option Kw × Option Nat := (r.own, r.parent, r.colArgs, r.colRef)
 
 structure Heap where
   cls : List Cls
@@ -96,6 +102,11 @@ inductive MandRule where
 inductive VarRule where
   | ownPerClass        -- every declared class has its own `_variants` entry          (good)
   | inheritedFromBase  -- a subclass finds (and fills) the `_variants` of its base    (defect)
+  deriving DecidableEq, Repr
+
+inductive ColCopy where
+  | deep     -- `deepcopy(cls.Attributes.sqla_column_args)`: the derived class gets a dict of its own   (good)
+  | shallow  -- `copy(...)` of the pair: the dict inside is shared with the class derived from
   deriving DecidableEq, Repr
 
 inductive MslRule where
@@ -118,6 +129,7 @@ structure Facts15 where
   mandRule : MandRule
   varRule : VarRule
   mslRule : MslRule
+  colCopy : ColCopy
   /-- class namespaces / `dict(odict)` enumerate in insertion order (CPython >= 3.7) -/
   dictOrdered : Bool
   mandPrefix : String
@@ -184,6 +196,25 @@ def variantsOf (h : Heap) (c : Nat) : List Nat :=
   match h.cls[c]? with
   | some cl => match variantsH h cl.attrs with | some (_, l) => l | none => []
   | none => []
+
+/-- own `sqla_column_args` entry of a record: a dict of its own, or an alias of another record's -/
+def colSel (r : AttrRec) : Option (Kw ⊕ Nat) :=
+  match r.colArgs, r.colRef with
+  | some d, _ => some (.inl d)
+  | none, some x => some (.inr x)
+  | none, none => none
+
+/-- resolved `sqla_column_args`: the record that holds the dict object, and the dict -/
+def colH (h : Heap) (a : Nat) : Option (Nat × Kw) :=
+  match chainH h.attrs colSel a with
+  | some (holder, .inl d) => some (holder, d)
+  | some (via, .inr x) =>
+    if x < via then
+      match h.attrs[x]? with
+      | some r => r.colArgs.map (fun d => (x, d))
+      | none => none
+    else none
+  | none => none
 
 def dcaH (h : Heap) (a : Nat) : Option (Nat × List (String × Kw)) := chainH h.attrs (fun r => r.dca) a
 def dcaaOf (h : Heap) (a : Nat) : Option Kw := chain h.attrs (fun r => r.dcaa) a
@@ -262,11 +293,19 @@ def Heap.updCls (h : Heap) (c : Nat) (f : Cls → Cls) : Heap :=
 /-- update the non-public cells of an `Attributes` record -/
 def Heap.updCells (h : Heap) (a : Nat) (f : AttrRec → AttrRec) : Heap :=
   match h.attrs[a]? with
-  | some r => { h with attrs := h.attrs.set a { f r with own := r.own, parent := r.parent } }
+  | some r => { h with attrs := h.attrs.set a { f r with own := r.own, parent := r.parent,
+                                                           colArgs := r.colArgs, colRef := r.colRef } }
+  | none => h
+
+/-- write *into* the column-keyword dict held by record `a` -/
+def Heap.updCol (h : Heap) (a : Nat) (d : Kw) : Heap :=
+  match h.attrs[a]? with
+  | some r => { h with attrs := h.attrs.set a { r with colArgs := some d } }
   | none => h
 
 def modifyHeap (f : Heap → Heap) : M Unit := fun h => .ok (f h) ()
 def updCls (c : Nat) (f : Cls → Cls) : M Unit := fun h => .ok (h.updCls c f) ()
 def updCells (a : Nat) (f : AttrRec → AttrRec) : M Unit := fun h => .ok (h.updCells a f) ()
+def updCol (a : Nat) (d : Kw) : M Unit := fun h => .ok (h.updCol a d) ()
 
 end SpyneModel.Derive
